@@ -1,7 +1,8 @@
 import GstVerif.Cow.Model
 /- line protocol of the copy-on-write vector model (C10):
    o seq <op>;<op>;… => <content of handle 0>|<content of handle 1>|…      (`-` = empty vector)
-   ops: new:<ints> copy:<h> assign:<h>:<g> set:<h>:<i>:<v> push:<h>:<v> resize:<h>:<n> swap:<h>:<g> -/
+   ops: new:<ints> copy:<h> assign:<h>:<g> set:<h>:<i>:<v> push:<h>:<v> resize:<h>:<n> swap:<h>:<g>
+        clear:<h> fill:<h>:<v>:<n> insert:<h>:<i>:<v> remove:<h>:<i> pushfront:<h>:<v> front:<h>:<v> back:<h>:<v> append:<h>:<ints> -/
 namespace GstVerif.Cow
 open GstVerif
 
@@ -14,6 +15,14 @@ def parseOp (t : String) : Option Op :=
   | ["push", h, v] => do pure (Op.push (← h.toNat?) (← v.toInt?))
   | ["resize", h, n] => do pure (Op.resize (← h.toNat?) (← n.toNat?))
   | ["swap", h, g] => do pure (Op.swap (← h.toNat?) (← g.toNat?))
+  | ["clear", h] => do pure (Op.upd (← h.toNat?) .clear)
+  | ["fill", h, v, n] => do pure (Op.upd (← h.toNat?) (.fill (← v.toInt?) (← n.toNat?)))
+  | ["insert", h, i, v] => do pure (Op.upd (← h.toNat?) (.insert (← i.toNat?) (← v.toInt?)))
+  | ["remove", h, i] => do pure (Op.upd (← h.toNat?) (.remove (← i.toNat?)))
+  | ["pushfront", h, v] => do pure (Op.upd (← h.toNat?) (.pushFront (← v.toInt?)))
+  | ["front", h, v] => do pure (Op.upd (← h.toNat?) (.front (← v.toInt?)))
+  | ["back", h, v] => do pure (Op.upd (← h.toNat?) (.back (← v.toInt?)))
+  | ["append", h, w] => do pure (Op.upd (← h.toNat?) (.append (← parseInts? w)))
   | _ => none
 
 def fmtVals (vals : List Buf) : String := "|".intercalate (vals.map fmtInts)
